@@ -95,7 +95,7 @@ class AvalonHarness(Harness):
                 assert all(be in LEGAL_BE[ab] for be in bes), "illegal Avalon byteenable pattern"
             else:
                 bes = None; n = a[2]
-            assert 1 <= n <= mbl, "burstcount must be 1..max_burst_length"
+            assert 1 <= n, "burstcount must be >= 1"      # may exceed max_burst_length: that parameter is the depth of the write FIFOs, the burstcount field is wider
             assert 0 <= a[1] and a[1] + n <= nwords
             self.acc.append((a[0], a[1], n, bes))
         self.NA = len(self.acc)
@@ -416,6 +416,8 @@ def configs(tier):
         # the same without idle cycles inside write bursts (everything else free)
         add(R11, "wb3-rb3", mbl=3, gaps=False); add(R11, "wb4-rb4", mbl=4, gaps=False); add(R11, "wb2-wb2-rb3", mbl=3, gaps=False)
         add(R11, "w1-w1-rb2", mbl=2, gaps=False); add(R11, "rb2-wb2-rb2", mbl=2, gaps=False, base_address=0x40)
+        # bursts longer than the write FIFOs (max_burst_length is their depth, not the limit of burstcount): back-pressure from either FIFO
+        add(R11, "wb3-rb3", mbl=2, gaps=False); add(R11, "wb4-rb4", mbl=2, gaps=False); add(R11, "wb4-rb4", mbl=3, dc="zero"); add(R11, "wb3-rb3", mbl=2, decoupled=True)
         # down-conversion
         add(R21, "wb2-rb2", mbl=2, gaps=False); add(R21, "wb3-rb3", mbl=3, gaps=False); add(R21, "w1-r1", mbl=2); add(R21, "wb2-rb2", mbl=2, dc="zero")
         # up-conversion
@@ -434,6 +436,10 @@ def configs(tier):
             add(R21, s, mbl=m, gaps=False)
             add(R12, s, mbl=m, gaps=False)
             add(R14, s, mbl=m, gaps=False)
+        for s in ("wb3-rb3", "wb4-rb4", "wb3", "wb2-wb2-rb3", "wb2-w1-rb3"):     # bursts longer than the write FIFOs
+            for r in (R11, R21, R12):
+                add(r, s, mbl=2, gaps=False); add(r, s, mbl=2, dc="zero"); add(r, s, mbl=2, decoupled=True)
+        add(R11, "wb4-rb4", mbl=3, gaps=False); add(R11, "wb4-rb4", mbl=3, decoupled=True)
         for s, m in (("wb2-rb2", 2), ("wb3-rb3", 3), ("rb2-wb2-rb2", 2)):
             add(R11, s, mbl=m, base_address=0x40, dc="zero")
             add(R11, s, mbl=m, pipelined=True, dc="ones")
